@@ -14,14 +14,14 @@
    fields cycle / delay / start-delay time, message send type, signal start value, signal send type
    (exported as the well-known Gen* attributes and landing back in the fields);
    `export_import_ast_mux_partial` covers SIMPLE MULTIPLEXERS (`mbus`: per message at most one multiplexer
-   at top level with standard children, each child in exactly one group, no attributes; the other signals of
-   such a message standard);
+   at top level whose children are standard or enum signals, each child in exactly one group; standard and
+   enum signals beside it; descriptions everywhere; no attributes);
    `export_import_ast_partial` is the MERGED whole-bus theorem (`ambus`): the structure of `mbus` (standard and
    enum signals, descriptions, per message at most one simple multiplexer) TOGETHER WITH attribute assignments
    and the six dedicated fields on every entity, including the message that holds a multiplexer, the
-   multiplexer itself and its children.  Not covered by a whole-bus theorem: nested / extended multiplexing
-   (several multiplexers per message, children in several groups or fixed), and ENUM signals inside a message
-   that holds a multiplexer (beside it or as its children).
+   multiplexer itself and its children (standard or enum).  Not covered by a whole-bus theorem: nested /
+   extended multiplexing (several multiplexers per message, a multiplexer inside a multiplexer, children in
+   several groups or fixed).
    The full statement is
    Acme.C11.RoundTrip.export_import_full_statement (well_formed, names_ok spelled out there).
    The other ingredients are proved in isolation: the four attribute types (+hex) and their defaults
@@ -59,8 +59,8 @@ Theorem export_import_ast_attr_partial : forall b, abus b ->
 Proof. exact RoundTripAttr.export_import_attr_thm. Qed.
 Print Assumptions export_import_ast_attr_partial.
 
-(* simple multiplexers: a message may hold one multiplexer signal whose children (standard signals) sit each
-   in exactly one group; parent, group membership, absolute positions and selector width are reproduced.
+(* simple multiplexers: a message may hold one multiplexer signal whose children (standard or enum signals, with
+   descriptions) sit each in exactly one group; parent, group membership, absolute positions and selector width are reproduced.
    The importer re-sorts the signals by start bit, the proof is invariant under that permutation *)
 Theorem export_import_ast_mux_partial : forall b, mbus b ->
   exists b', export_import b = Ok b' /\ proj_bus b' = proj_bus b.
@@ -68,8 +68,8 @@ Proof. exact RoundTripMux.export_import_mux_thm. Qed.
 Print Assumptions export_import_ast_mux_partial.
 
 (* the merged statement: standard + enum signals, descriptions, attributes and dedicated fields on every entity,
-   one simple multiplexer per message (children standard; a message that holds a multiplexer holds standard
-   signals besides it); attributes also on the multiplexer, its children and the message holding it *)
+   one simple multiplexer per message (children standard or enum signals, enum signals also beside it);
+   attributes also on the multiplexer, its children and the message holding it *)
 Theorem export_import_ast_partial : forall b, ambus b ->
   exists b', export_import b = Ok b' /\ proj_bus b' = proj_bus b.
 Proof. exact RoundTripAll.export_import_all_thm. Qed.
